@@ -1,5 +1,6 @@
 import ServlinVerif.Driver.C14
 import ServlinVerif.Driver.C20
+import ServlinVerif.Driver.C11
 import ServlinVerif.Driver.C04
 import ServlinVerif.Driver.C05
 import ServlinVerif.Driver.C17
@@ -33,6 +34,8 @@ def handleLine (line : String) : String :=
   | suite :: rest =>
     let (args, obs) := splitObserved rest
     match suite with
+    | "c11" => C11.handle args obs
+    | "c11t" => C11.handleStress args obs
     | "c14" => viaSpec (C14.handle args) obs
     | "c14a" => viaSpec (C14.handleAscii args) obs
     | "c14n" => viaSpec (C14.handleNum args) obs
